@@ -6,6 +6,8 @@
   API: strictly sorted unique keys, none ending in an index group (DESIGN.md section 2, D26).
 -/
 import YtkProofs.Diff
+import YtkProofs.DiffSpec
+import YtkProofs.DiffRel
 import YtkProofs.ValidB
 
 namespace Ytk.C07
@@ -44,6 +46,55 @@ theorem sort_order_independent (ms ms' : List Mod)
     (h : ∀ q, ms.filter (fun m => m.path = q) = ms'.filter (fun m => m.path = q)) :
     sortMods ms = sortMods ms' := sortMods_congr h
 
+/-- Exactness: Diff(L, R) contains a modification iff the specification `DiffSpec` (one Add per
+    leaf under a left-only key, one Delete per right-only key, one Change with both values per
+    differing scalar, Delete + Adds of the LEFT list's leaves for a differing list, Delete + Adds
+    of the RIGHT node's leaves for a kind mismatch; YtkProofs/DiffSpec.lean) asks for it —
+    and nothing else. -/
+theorem diff_mem_iff (l r : AMap Node) (hl : (Node.cont l).Valid) (hr : (Node.cont r).Valid) (m : Mod) :
+    m ∈ diff l r ↔ DiffSpec l r "" m := by
+  rw [diff, mem_sortMods, emit]
+  exact emit_mem_iff hl hr "" m
+
+/-- The key-order traversal the driver executes is one of the traversals Go may perform. -/
+theorem emitRel_keyorder (l r : AMap Node) : EmitRel (.cont l) (.cont r) "" (emit l r) :=
+  emitRel_self _ _ _
+
+/-- Determinism, multiset half: whatever order Go ranges over its maps in (both loops of diff()
+    and flattenContainer, at every depth), the sorted result is a permutation of `diff l r`
+    and is ordered by path. -/
+theorem diff_det_perm (l r : AMap Node) (ms : List Mod) (h : EmitRel (.cont l) (.cont r) "" ms) :
+    (sortMods ms).Perm (diff l r) ∧ (sortMods ms).Pairwise (fun a b => a.path ≤ b.path) :=
+  ⟨sortMods_perm_of_perm (emitRel_perm h), sortMods_sorted ms⟩
+
+/-- Determinism when no two emitted modifications share a path (no Delete/Add tie):
+    every traversal order sorts to the very same sequence. -/
+theorem diff_det_tiefree_partial (l r : AMap Node) (ms : List Mod) (h : EmitRel (.cont l) (.cont r) "" ms)
+    (hn : ((emit l r).map (·.path)).Nodup) : sortMods ms = diff l r :=
+  sortMods_congr (filter_eq_of_perm_of_nodup (emitRel_perm h) hn)
+
+/-
+  TODO (stated, not proved) — determinism at full strength, and the two facts it rests on:
+
+    theorem diff_det (l r : AMap Node) (hl : (Node.cont l).Valid) (hr : (Node.cont r).Valid)
+        (hs : SafeKeys l ∧ SafeKeys r) (ms : List Mod) (h : EmitRel (.cont l) (.cont r) "" ms) :
+        sortMods ms = diff l r
+
+    theorem diff_delete_before_add … : for i < j with equal paths in `diff l r`,
+        (diff l r)[i].ty = .delete ∧ (diff l r)[j].ty = .add          -- ties
+    theorem diff_nodup_positions … : at most one Delete, one Change and one Add per path
+
+  By `sort_order_independent` and `diff_ties_emission_order` (both proved) all three reduce to
+  one missing lemma: for path-safe keys the blocks emitted for two different keys of one
+  container have disjoint path sets (every path below key `k` is `toPath p k` followed by
+  nothing, `.` or `[`), so that for every path q
+      ms.filter (·.path = q) = (emit l r).filter (·.path = q)
+  — the only equal-path pair being the `Delete p, Add p` emitted together by one
+  handleExisting call.  That is a string-level fact about toPath/toListPath over the safe
+  alphabet (C02's `render_injective_on_leafPaths`).  Until then determinism with ties is
+  carried by the harness (20 repeated calls per pair on fresh maps, compared as sequences).
+-/
+
 /-! ## non-vacuity -/
 
 def i (n : Nat) : Scalar := ⟨"int", toString n⟩
@@ -73,5 +124,18 @@ theorem nonvacuous_self : diff exL exL = [] ∧ diff exR exR = [] := by decide +
 theorem nonvacuous_nil_flatten :
     diff [("a", .cont []), ("b", .leaf (i 1))] [("b", .leaf (i 1))] = [] ∧
     ([("a", Node.cont []), ("b", .leaf (i 1))] : AMap Node) ≠ [("b", .leaf (i 1))] := by decide +kernel
+
+/-- a traversal in another map order emits another sequence, which sorts to the same result -/
+theorem nonvacuous_other_order :
+    ∃ ms, EmitRel (.cont [("a", .leaf (i 1)), ("b", .leaf (i 2))]) (.cont []) "" ms ∧
+      ms ≠ emit [("a", .leaf (i 1)), ("b", .leaf (i 2))] [] ∧
+      sortMods ms = diff [("a", .leaf (i 1)), ("b", .leaf (i 2))] [] :=
+  ⟨([Mod.mkAdd (toPath "" "b") (i 2)] ++ ([Mod.mkAdd (toPath "" "a") (i 1)] ++ [])) ++
+      emitRight [] [("a", .leaf (i 1)), ("b", .leaf (i 2))] "",
+    EmitRel.cont (l' := [("b", .leaf (i 2)), ("a", .leaf (i 1))]) (r' := []) (List.Perm.swap ..) (List.Perm.refl _)
+      (.leftOnly (by decide +kernel) (.leaf _ _) (.leftOnly (by decide +kernel) (.leaf _ _) (.nil _ _))),
+    by decide +kernel, by decide +kernel⟩
+
+theorem nonvacuous_tiefree : ((emit exR exL).map (·.path)).Nodup := by decide +kernel
 
 end Ytk.C07
